@@ -13,8 +13,7 @@ def run(ctx, res):
                       "C10.cover (children canonicalised before the parent is sorted, on every path; numbers replaced unconditionally) = C09.cover",
                       "C10.writes (canonicalisation assigns number payloads and reorders entries; nothing else is written)",
                       "C10.total (the comparator is the total, position-independent order of C09.order with the value as tie-break)"]
-    C06.pair(ctx, res)
-    C06.writers(ctx, res)
+    C06.pair(ctx, res, only={"sort", "canonicalize_with"})
     C09.cover_rule(ctx, res, "C10.cover")
     C09.order_rule(ctx, res, "C10.total")
     writes_rule(ctx, res)
